@@ -14,6 +14,7 @@ BUILDS = {
 }
 
 HOOK_COMMITS = ["9bb871a", "5fa190b"]
+FIX_COMMITS = ["1a9feb3", "a54e157"]
 
 # properties not claimed, with the reason (filled while the checks are being built)
 NOT_APPLICABLE = {}
@@ -82,6 +83,61 @@ PROPS = {
              "what": "E-A arrival sweep (complete family, exhaustive over the enumerated cases)"},
             {"engine": "th", "quick": 1600, "thorough": 100000,
              "what": "E-T: concurrent kill/stop requesters vs running handlers, after-kill / after-stop clauses with one pick in flight"},
+        ],
+    },
+    "C04": {
+        "level": "fault_enumeration",
+        "technique": "runtime monitoring under fault enumeration: every exit kind x callback x failure flavour x timing, and abort of the actor task at every poll k (poll interposer), with supervisor / monitor / bystander actors logging every SupervisionEvent; exactly-once + classification oracle over the logs",
+        "level_text": ("Fault enumeration: the finite family {pre_start/post_start/handle/supervisor-handler/post_stop failure x "
+                       "panic(String)/panic(&str)/Err, stop(+/-reason)/drain/kill at 3 timings, abort-at-poll-k for k=1..40} x "
+                       "{busy/idle supervisor} x {2 interposer settings} x {+/- monitor} is executed completely on every run "
+                       "(536 executions), and again on the thread engine with thread-local children (108 executions). Each "
+                       "execution is checked for: join result, exactly one correctly classified terminal event, ActorStarted "
+                       "once/before/iff post_start Ok, monitor copy, no misdelivery, survivors still answering."),
+        "level_note": ("Crash points are the await points reached by this particular child workload (abort fires for k up to the number "
+                       "of polls the actor task needs, ~15); a supervisor that is itself exiting is out of scope ('living supervisor')."),
+        "rule": ("every case of the enumerated family is run; a case is non-trivial unless it is an abort-at-poll-k whose k exceeds the "
+                 "polls the task needed (abort never fired); distinct = hash(case, per-callback exit kinds of the child, abort fired)."),
+        "assumptions": ["supervisor with Ignore policy stays alive for the whole scenario"],
+        "runs": [
+            {"engine": "vt", "quick": 536, "thorough": 536, "what": "E-A fault enumeration incl. abort-at-poll-k via the poll interposer (exhaustive over the family)"},
+            {"engine": "th", "quick": 108, "thorough": 108, "what": "E-T: thread-local children (own spawner thread, real clock) under H1 noise"},
+        ],
+    },
+    "C05": {
+        "level": "exploration",
+        "technique": "runtime monitoring: atomic tree snapshots (taken under the code's own tree lock) checked for the child<->supervisor bijection at every observer step; quiescent structural invariants; behavioural 'was killed' oracle (no callback starts after the exiting ancestor's wait() returned) on random trees with concurrent link/unlink/spawn_linked and every exit cause incl. task abort",
+        "level_text": ("Exploration: seeded random supervision trees (3-12 nodes, backlogs, some nodes already draining), a random node "
+                       "exits by stop/kill/drain/panic/Err/abort-at-poll-k while 1-3 concurrent tasks relink leaves and spawn_linked "
+                       "new children; invariants are checked on every atomic snapshot during the run and at quiescence. Held on "
+                       "what was observed."),
+        "level_note": ("Model-based clauses (all then-descendants Stopped / not running on) exclude leaves that are concurrently relinked; "
+                       "those are still covered by the structural invariants. Tree depth/size bounded as stated; E-T allows one callback in flight."),
+        "rule": ("seeded scenario = random tree + backlog + draining subset + exit cause + concurrent link ops. Non-trivial = the exiting node "
+                 "had >= 1 descendant or >= 1 concurrent link op ran; distinct = hash(tree shape, victim, cause, #descendants, #draining, #ops)."),
+        "assumptions": ["Probe supervisors use the Ignore policy so that upward propagation is not mixed into the downward clause"],
+        "runs": [
+            {"engine": "vt", "quick": 12000, "thorough": 600000, "what": "E-A: random trees, all exit causes incl. abort-at-poll-k, concurrent link ops as tasks, observer snapshots"},
+            {"engine": "th", "quick": 480, "thorough": 40000, "what": "E-T: same on 4 worker threads with noise + rendezvous LINK_BEFORE_LOCK <-> CLEANUP_AFTER_STOPPING"},
+        ],
+    },
+    "C06": {
+        "level": "exploration",
+        "technique": "runtime monitoring: snapshot-at-return assertions (status, name, pid, groups, children, supervisor notified) on every waiter API under virtual time; hand-polled wait() futures on a detached cell / live actor for a deadline-free lost-wake-up oracle under thread noise and rendezvous in wait()/notify",
+        "level_text": ("Exploration: (vt) 1-8 waiters over all five wait APIs and the join handle, with and without timeouts that land "
+                       "before/at/after the exit, for stop/kill/drain/panic exits with children, groups and a slow post_stop; each Ok "
+                       "return is followed by an immediate snapshot of everything that must be gone; timeouts are checked to the "
+                       "virtual millisecond. (th) exiter thread vs 2-5 waiter threads creating and polling wait() futures at random "
+                       "instants; after all threads joined every future must be Ready. Held on what was observed."),
+        "level_note": ("The lost-wake-up oracle needs no deadline: the status is final and notify has returned when the futures are re-polled. "
+                       "Supervisor notification is observed through a Flush call issued after the waiter returned (supervision outranks messages)."),
+        "rule": ("vt: non-trivial = some waiter started within [t_req-2ms, t_req+15ms] of the exit request; distinct = hash(per-waiter (api, "
+                 "result) sequence, scenario parameters). th: non-trivial = at least one wait future was registered before the final transition "
+                 "(not Ready at its first poll); distinct = hash(#futures, #ready-at-first-poll, intensity, waiters)."),
+        "assumptions": ["tokio Notify semantics", "status is monotonic (checked by the sampler)"],
+        "runs": [
+            {"engine": "vt", "quick": 8000, "thorough": 600000, "what": "E-A: all wait APIs, timeouts on the virtual clock, snapshot at return"},
+            {"engine": "th", "quick": 24000, "thorough": 2000000, "what": "E-T: detached-cell and live-actor lost-wake-up / early-return oracle with noise at WAIT_AFTER_NOTIFIED, STATUS_BEFORE_NOTIFY, NOTIFY_BETWEEN"},
         ],
     },
 }
